@@ -135,8 +135,13 @@ impl RustDocument {
             return;
         }
 
-        // check if the abbreviation is already in use
-        if self.namespace_lookup.contains_key(original_abbreviation) {
+        // a prefix that is bound already keeps its namespace, unless an element further inside binds it anew: the
+        // nearest declaration decides (the namespaces of a node are collected when the node is read)
+        if self
+            .namespace_lookup
+            .get(original_abbreviation)
+            .is_some_and(|bound| bound.namespace == url)
+        {
             return;
         }
 
